@@ -393,6 +393,15 @@ func (h *http2FrameTracer) traceFrameLocked(data []byte) (int, bool) {
 }
 
 func (h *http2FrameTracer) emitFrame() bool {
+	switch h.header.Type {
+	case http2.FrameHeaders, http2.FrameContinuation:
+		if !h.header.Flags.Has(http2.FlagHeadersEndHeaders) {
+			// The header block continues in CONTINUATION frame(s). The framer
+			// needs the whole block to decode it, so keep accumulating until
+			// the frame that ends the block.
+			return true
+		}
+	}
 	defer func() {
 		h.frame.Reset()
 	}()
